@@ -71,6 +71,11 @@ def gen_scenario(rng, faulty=False, fine_pct=35, nreq_max=2):
             })
         if rng.randrange(5) == 0:
             sc["stalls"] = [{"role": rng.choice(["dul:acc0", "dul:req0", "assoc:acc0", "assoc:req0"]), "at": rng.choice([0.001, 0.005, 0.02]), "dur": rng.choice([0.01, 0.05, t * 1.5])}]
+        if rng.randrange(3) == 0:
+            # flow control: a stalled connection also stops taking bytes, so a large enough write blocks in send()
+            sc["net"]["pipe_capacity"] = rng.choice([256, 1024, 4096])
+            for rq in sc["req"]:
+                rq["ops"].insert(rng.randrange(0, len(rq["ops"]) + 1), {"op": "store", "size": rng.choice([3000, 20000])})
     return sc
 
 
